@@ -505,6 +505,7 @@ func runC02(c *Ctx) {
 	}
 
 	clauseLRUPin(c, "C02.d")
+	clauseCacheReleaseDiscipline(c, "C02.l")
 	clauseStreamPosition(c, "C02.e")
 	clausePrivateCaches(c, "C02.f")
 	clauseSortedChunks(c, "C02.g")
